@@ -1,4 +1,5 @@
 """Contains the Mode base class."""
+from functools import partial
 from typing import Any, Optional, Union
 from typing import Callable
 from typing import Dict
@@ -29,7 +30,7 @@ class Mode(LogMixin):
     __slots__ = ["machine", "config", "name", "path", "priority", "_active", "_starting", "_mode_start_wait_queue",
                  "stop_methods", "start_callback", "stop_callbacks", "event_handlers", "switch_handlers",
                  "mode_stop_kwargs", "mode_devices", "start_event_kwargs", "stopping", "delay", "player",
-                 "auto_stop_on_ball_end", "restart_on_next_ball", "asset_paths"]
+                 "auto_stop_on_ball_end", "restart_on_next_ball", "asset_paths", "_cleanup_pending"]
 
     # pylint: disable-msg=too-many-arguments
     def __init__(self, machine: "MachineController", config, name: str, path, asset_paths) -> None:
@@ -52,6 +53,7 @@ class Mode(LogMixin):
         self.priority = 0
         self._active = False
         self._starting = False
+        self._cleanup_pending = False
         self._mode_start_wait_queue = None      # type: Optional[QueuedEvent]
         self.stop_methods = list()              # type: List[Tuple[Callable[[Any], None], Any]]
         self.start_callback = None              # type: Optional[Callable[[], None]]
@@ -163,6 +165,13 @@ class Mode(LogMixin):
 
         if self._starting:
             self.debug_log("Mode already starting. Aborting start.")
+            return
+
+        if self._cleanup_pending:
+            # the mode stopped but its handlers and devices have not been removed yet (e.g. a start from a handler
+            # of its own stopped event). start afterwards. otherwise the clean up would remove the new registrations
+            self.debug_log("Mode is still cleaning up. Will start afterwards.")
+            self.stop_callbacks.append(partial(self.start, mode_priority, callback, **kwargs))
             return
 
         self._starting = True
@@ -336,6 +345,7 @@ class Mode(LogMixin):
         self.priority = 0
         self.active = False
         self.stopping = False
+        self._cleanup_pending = True
 
         for item in self.stop_methods:
             item[0](item[1])
@@ -381,11 +391,12 @@ class Mode(LogMixin):
         # Clean up the mode handlers and devices
         self._remove_mode_event_handlers()
         self._remove_mode_devices()
+        self._cleanup_pending = False
 
-        for callback in self.stop_callbacks:
-            callback()
-
+        stop_callbacks = self.stop_callbacks
         self.stop_callbacks = []
+        for callback in stop_callbacks:
+            callback()
 
     def _add_mode_devices(self) -> None:
         """Add and initialize mode devices which get removed at the end of the mode."""
